@@ -109,7 +109,7 @@ impl Check for C09 {
     fn meta(&self) -> Meta {
         Meta {
             level: "exploration",
-            rule: "histories of 0-4 accepted requests, each ending in one of {normal finish, resolver dropped before header resolution, FIN before HEADERS, client RESET before / after HEADERS, malformed headers, oversized headers, split into halves dropped at different times, held by the application until released, never resolving until released, parked in a collection the application clears in one step when released}; one run in sixteen is a burst of 17-24 requests all ended in that one step combined with the client's GOAWAY written at a drawn script position (in one run in three behind MAX_PUSH_ID / CANCEL_PUSH frames a server ignores: one frame, or a burst of 16-40 in the same write as the GOAWAY) and, in one run in three, a server-initiated shutdown(n), n in 0..3, at a drawn moment; in one run in three the requests are written in a drawn order and surface in arrival order (stream 4 may be accepted before stream 0); all interleavings and chunkings drawn; judged at two exact quiescence points (before and after the held requests are released); non-trivial = GOAWAY delivered and >= 1 request handed out; distinct = distinct schedule signatures",
+            rule: "histories of 0-4 accepted requests, each ending in one of {normal finish, resolver dropped before header resolution, FIN before HEADERS, client RESET before / after HEADERS, malformed headers, oversized headers, split into halves dropped at different times, held by the application until released, never resolving until released, parked in a collection the application clears in one step when released}; one run in sixteen is a burst of 17-24 requests all ended in that one step combined with the client's GOAWAY written at a drawn script position (push id 0 or 7; one run in three a legal sequence of 2-3 GOAWAYs with equal or decreasing ids, glued or some turns apart; in one run in three behind MAX_PUSH_ID / CANCEL_PUSH frames a server ignores: one frame, or a burst of 16-40 in the same write as the GOAWAY) and, in one run in three, a server-initiated shutdown(n), n in 0..3, at a drawn moment; in one run in three the requests are written in a drawn order and surface in arrival order (stream 4 may be accepted before stream 0); all interleavings and chunkings drawn; judged at two exact quiescence points (before and after the held requests are released); non-trivial = GOAWAY delivered and >= 1 request handed out; distinct = distinct schedule signatures",
             real: &["h3 server Connection (accept / request completion accounting)", "RequestResolver, server RequestStream and its halves, RequestEnd notification channel"],
             stub: &["QUIC transport (SimQuic)", "executor (simexec)", "peer (script)", "application (drawn handling of each request; handle lifetimes tracked by drop guards)"],
             assumptions: &["a request has ended when the application holds no handle of it any more (resolver, stream or either half), whether by drop or by a failing call that consumed it"],
@@ -157,6 +157,20 @@ impl Check for C09 {
         // 1 / 2: one MAX_PUSH_ID / CANCEL_PUSH frame; 3: a burst of 16-40 MAX_PUSH_ID frames glued to the GOAWAY
         let push_frames = if draw(3) == 2 { 1 + draw(3) } else { 0 };
         let burst_len = 16 + draw(25) as u64;
+        // the client's GOAWAY carries a push id; it may be repeated or lowered (RFC 9114 5.2: never raised). One run
+        // in three sends a legal sequence of 2-3: equal or decreasing values, glued to the first or some turns later
+        let goaway_ids: Vec<u64> = if draw(3) == 2 {
+            let first = *pick(&[0u64, 7, 1000, 16384]);
+            let mut v = vec![first];
+            for _ in 0..1 + draw(2) {
+                let last = *v.last().unwrap();
+                v.push(if draw(2) == 0 { last } else { last / 2 });
+            }
+            v
+        } else {
+            vec![*pick(&[0u64, 0, 0, 7])]
+        };
+        let goaway_glued = draw(2) == 0;
         let own_shutdown_plan: (bool, u32, usize) = if draw(3) == 2 { (true, draw(60), draw_usize(4)) } else { (false, 0, 0) };
         let log: Rc<RefCell<Vec<Ev>>> = Default::default();
         let release = Rc::new(Gate::default());
@@ -181,7 +195,7 @@ impl Check for C09 {
                             for v in 0..burst_len {
                                 b.extend(frames::frame(frames::MAX_PUSH_ID, &varint::encode(v)));
                             }
-                            b.extend(frames::goaway(0));
+                            b.extend(frames::goaway(goaway_ids[0]));
                             net.lock().unwrap().raw_write(cid, CLIENT, &b);
                             obs::count("probe.burst_of_ignored_control_frames_ahead_of_goaway");
                         } else {
@@ -193,9 +207,24 @@ impl Check for C09 {
                                     exec::yield_now().await;
                                 }
                             }
-                            net.lock().unwrap().raw_write(cid, CLIENT, &frames::goaway(0));
+                            net.lock().unwrap().raw_write(cid, CLIENT, &frames::goaway(goaway_ids[0]));
                         }
-                        obs::ev("peer.goaway", 0, 0);
+                        obs::ev("peer.goaway", goaway_ids[0], 0);
+                        if goaway_ids.len() > 1 {
+                            obs::count("probe.peer_goaway_repeated_or_lowered");
+                            if goaway_ids.windows(2).any(|w| w[0] == w[1]) {
+                                obs::count("probe.peer_goaway_repeated_with_the_same_id");
+                            }
+                            for g in &goaway_ids[1..] {
+                                if !goaway_glued {
+                                    for _ in 0..draw(8) {
+                                        exec::yield_now().await;
+                                    }
+                                }
+                                net.lock().unwrap().raw_write(cid, CLIENT, &frames::goaway(*g));
+                                obs::ev("peer.goaway", *g, 0);
+                            }
+                        }
                     }
                     if pos < k {
                         for _ in 0..draw(6) {
